@@ -550,12 +550,54 @@ fn gen_session(cell: &CellSpec, seed: u64, k: u64, sweep: &[HdrSpec], malformed:
 // cell environment
 // ------------------------------------------------------------------------------------------
 
+/// Connections accepted by the scripted backend, handed out strictly in accept order: the backend
+/// server runs one thread per connection, so arrival order on the channel is not accept order.
+struct AcceptQueue {
+    rx: MpscReceiver<(usize, std::net::TcpStream)>,
+    next: std::cell::Cell<usize>,
+    pending: std::cell::RefCell<std::collections::BTreeMap<usize, std::net::TcpStream>>,
+}
+
+impl AcceptQueue {
+    fn recv_timeout(&self, wait: Duration) -> Result<std::net::TcpStream, ()> {
+        let start = Instant::now();
+        loop {
+            let next = self.next.get();
+            if let Some(s) = self.pending.borrow_mut().remove(&next) {
+                self.next.set(next + 1);
+                return Ok(s);
+            }
+            // an index whose handler thread never delivered (spawn failure): do not wait for ever
+            if start.elapsed() > Duration::from_secs(2) {
+                if let Some(first) = self.pending.borrow().keys().next().copied() {
+                    self.next.set(first);
+                    continue;
+                }
+            }
+            let left = wait.checked_sub(start.elapsed()).unwrap_or(Duration::ZERO);
+            if left.is_zero() && start.elapsed() <= Duration::from_secs(2) && self.pending.borrow().is_empty() {
+                return Err(());
+            }
+            match self.rx.recv_timeout(left.max(Duration::from_millis(1))) {
+                Ok((i, s)) => {
+                    self.pending.borrow_mut().insert(i, s);
+                }
+                Err(_) if self.pending.borrow().is_empty() || start.elapsed() > Duration::from_secs(3) => return Err(()),
+                Err(_) => {}
+            }
+        }
+    }
+    fn try_recv(&self) -> Result<std::net::TcpStream, ()> {
+        self.recv_timeout(Duration::ZERO)
+    }
+}
+
 struct Env<'a> {
     cell: &'a CellSpec,
     front: SocketAddr,
     back: SocketAddr,
     probe: Arc<sozu_lib::verif::Probe>,
-    accept_rx: &'a MpscReceiver<std::net::TcpStream>,
+    accept_rx: &'a AcceptQueue,
     baseline_connections: usize,
     idle_limit: Duration,
     /// (keystream id client->backend, client socket address) of the earlier sessions of this cell
@@ -769,7 +811,26 @@ fn run_session(env: &Env, spec: &SessionSpec, w: &mut Worker) -> Ran {
                             let g = *grace.get_or_insert_with(Instant::now);
                             let released = env.probe.snapshot().nb_connections <= env.baseline_connections;
                             if (released && g.elapsed() > Duration::from_millis(30)) || g.elapsed() > Duration::from_millis(500) {
-                                no_backend = true;
+                                // Before concluding that sozu never connected: its connection, if any, was
+                                // established before it released the session, so it sits in the FIFO accept
+                                // queue ahead of a marker connection made now (the accept thread may lag).
+                                let mut late = None;
+                                if let Ok(marker) = std::net::TcpStream::connect_timeout(&env.back, Duration::from_secs(2)) {
+                                    let me = marker.local_addr().ok();
+                                    let limit = Instant::now() + Duration::from_secs(5);
+                                    loop {
+                                        match env.accept_rx.recv_timeout(Duration::from_millis(50)) {
+                                            Ok(s) if s.peer_addr().ok() == me => break,
+                                            Ok(s) => late = late.or(Some(s)),
+                                            Err(_) if Instant::now() > limit => break,
+                                            Err(_) => {}
+                                        }
+                                    }
+                                }
+                                match late {
+                                    Some(s) => bh = Some(scope.spawn(move || engine::run_side(s, bsr, shr))),
+                                    None => no_backend = true,
+                                }
                             }
                         }
                     }
@@ -872,7 +933,7 @@ fn classify_mismatch(mode: Mode, dir: &str, spec: &SessionSpec, m: &engine::Mism
     }
     if mode.is_ws() && dir == "backend_to_client" && at_start && spec.ws_joined > 0 {
         return (
-            "ws/bytes_behind_101_not_relayed".to_owned(),
+            (if (matches!(spec.script, Script::HalfClose { first: Who::Backend, .. }) || (spec.c2b == 0 && matches!(spec.script, Script::Exchange { first: Who::Backend }))) { "ws/bytes_behind_101_not_relayed/backend_ended_its_stream_at_once" } else { "ws/bytes_behind_101_not_relayed" }).to_owned(),
             format!(
                 "the client's upgraded stream does not start with the bytes the backend sent in the same segment as its 101 response ({} joined; stream resumes at offset {:?})",
                 spec.ws_joined, m.shift
@@ -1094,16 +1155,24 @@ fn judge(env: &Env, spec: &SessionSpec, ran: &Ran, rep: &mut Report) -> Verdict 
         }
         if mode.is_ws() && dir == "backend_to_client" && got == 0 && spec.ws_joined > 0 && receiver.is_some_and(ended) {
             return Some(Verdict::Violation(
-                "ws/bytes_behind_101_not_relayed".to_owned(),
+                (if (matches!(spec.script, Script::HalfClose { first: Who::Backend, .. }) || (spec.c2b == 0 && matches!(spec.script, Script::Exchange { first: Who::Backend }))) { "ws/bytes_behind_101_not_relayed/backend_ended_its_stream_at_once" } else { "ws/bytes_behind_101_not_relayed" }).to_owned(),
                 format!("the {} byte(s) the backend sent in the same segment as its 101 response never reached the client (0 of {len} bytes at end-of-stream)", spec.ws_joined),
             ));
         }
+        // When the opposite direction is still carrying data at the moment sozu ends the session,
+        // its close is abortive (unread input => RST) and destroys what it had already written:
+        // a different mechanism, reported under its own signature.
+        let opposite_len = if dir == "client_to_backend" { spec.b2c } else { spec.c2b };
+        let busy = matches!(spec.script, Script::HalfClose { late: false, .. }) && opposite_len > 0;
+        // nobody had ended a stream yet: sozu cut the session under a sender that was still writing
+        let cut = !sender.send_done && sender.send_err.is_some();
+        let variant = if busy { "/opposite_direction_busy" } else if cut { "/session_cut_mid_transfer" } else { "" };
         match receiver {
             Some(r) if ended(r) => {
                 let _ = rep;
                 Some(Verdict::Violation(
-                    format!("{p}/eos_before_all_bytes/{dir}"),
-                    format!("{dir}: the receiver observed end-of-stream ({:?}) after {got} of {len} bytes{}", r.end, if sender.send_done { " (all of them written before the sender ended its stream)" } else { " (the sender was cut while writing)" }),
+                    format!("{p}/eos_before_all_bytes/{dir}{variant}"),
+                    format!("{dir}: the receiver observed end-of-stream ({:?}) after {got} of {len} bytes{}{}", r.end, if sender.send_done { " (all of them written before the sender ended its stream)" } else { " (the sender was cut while writing)" }, if busy { "; the opposite direction was still carrying data" } else { "" }),
                 ))
             }
             None if ended(c) && dir == "client_to_backend" => Some(Verdict::Violation(
@@ -1197,7 +1266,7 @@ struct CellShared {
     splits: Mutex<BTreeSet<(String, usize, bool)>>,
 }
 
-fn setup_worker(cell: &CellSpec) -> Result<(Worker, BackendServer, MpscReceiver<std::net::TcpStream>, SocketAddr), String> {
+fn setup_worker(cell: &CellSpec) -> Result<(Worker, BackendServer, AcceptQueue, SocketAddr), String> {
     let (front, back): (SocketAddr, SocketAddr) = if cell.ipv6 {
         let ip = lab::fresh_ip().octets();
         let port = 20000 + ((ip[2] as u16) * 254 + ip[3] as u16) % 30000;
@@ -1206,11 +1275,12 @@ fn setup_worker(cell: &CellSpec) -> Result<(Worker, BackendServer, MpscReceiver<
         let ip = lab::fresh_ip();
         (lab::sa(ip, 8080), lab::sa(ip, 9000))
     };
-    let (tx, rx) = channel::<std::net::TcpStream>();
-    let tx: Mutex<Sender<std::net::TcpStream>> = Mutex::new(tx);
+    let (tx, rx) = channel::<(usize, std::net::TcpStream)>();
+    let tx: Mutex<Sender<(usize, std::net::TcpStream)>> = Mutex::new(tx);
+    let rx = AcceptQueue { rx, next: std::cell::Cell::new(0), pending: Default::default() };
     let bprog = IoProgram { rcvbuf: cell.backend_rcvbuf, ..IoProgram::fast() };
-    let backend = BackendServer::start(back, bprog, move |s, _| {
-        let _ = tx.lock().unwrap_or_else(|e| e.into_inner()).send(s);
+    let backend = BackendServer::start(back, bprog, move |s, idx| {
+        let _ = tx.lock().unwrap_or_else(|e| e.into_inner()).send((idx, s));
     })
     .map_err(|e| format!("backend listener on {back}: {e}"))?;
     let opts = WorkerOpts { buffer_size: cell.buffer_size, knobs: cell.knobs.clone(), ..WorkerOpts::default() };
